@@ -55,6 +55,7 @@ def dispatch (fam : String) : Option (List String → String → Option Res) :=
   | "feestake" => some runFeeStake
   | "framesettle" => some runFrameSettle
   | "nohaltsettle" => some runNoHaltSettle
+  | "nohaltslash" => some runNoHaltSlash
   | "claim" => some runClaim
   | "oracle" => some runOracle
   | "oracle7" => some runOracle7
